@@ -23,6 +23,7 @@ META = {
                   "the theorems quantify over all crash points and all and-or graphs; the real engine is crashed at every point up to the clean run's count.",
     "level_note": "SLG (Drop for SolveState / re-enqueueing of strands) is tested only: every n-th database call panics, then all goals again",
     "design_ref": "DESIGN.md §4 C12",
+    "bins": ["engine", "hist"],
     "assumptions": [
         "engine theorems are about the propositional instantiation of SolverStuff (ground and-or graphs)",
         "SLG unwinding is covered by crash-point sweeps on generated programs, not by a model",
